@@ -552,6 +552,7 @@ def lemmas():
     x = z3.Int("rt_v")
     out.append(("uint8->float64->uint8-rescaling-is-the-identity-when-the-cast-truncates", [x >= 0, x <= 255],
                 z3.ToInt((z3.ToReal(x) * rq(1, 255)) * rq(255)) == x))
+    out.extend(_IO.lemmas())
     return out
 
 
@@ -1238,6 +1239,9 @@ def _close_all(R):
             sp["invariant"] = [fix(x) for x in sp.get("invariant", [])]
 
 
+from contracts import C20_io as _IO  # noqa: E402  (second contract file of this property: readers, dispatch, writer plumbing)
+
+
 def register(R):
     reg_save_tiff(R)
     reg_ndarray(R)
@@ -1245,4 +1249,5 @@ def register(R):
     reg_samplers(R)
     reg_transform(R)
     reg_leave(R)
+    _IO.register(R)
     _close_all(R)
